@@ -145,6 +145,7 @@ func genLongWidths(t *rapid.T, c *Case, m *model) {
 	for i := range c.Widths {
 		c.Widths[i] = one()
 	}
+	alternateWidths(t, c, m, one())
 }
 
 func genLong(t *rapid.T) (*Case, *built, *model) {
